@@ -149,12 +149,26 @@ class Functor(IUnifiable):
         else:
             return YPFail()
 
+def copy_term(term, mapping):
+    """Return a copy of the value of term in which every unbound variable is
+    replaced by a new variable; mapping records the replacements."""
+    v = get_value(term)
+    if isinstance(v, Variable):
+        if v not in mapping:
+            mapping[v] = Variable()
+        return mapping[v]
+    if isinstance(v, Functor):
+        return Functor(v._name, [copy_term(a, mapping) for a in v._args])
+    return v
+
 class Answer:
     """Data structure to represent predicates/facts."""
     def __init__(self, values):
-        self.values = values
+        mapping = {}
+        self.values = [copy_term(v, mapping) for v in values]
     def match(self, args):
-        return unify_arrays(args, self.values)
+        mapping = {}
+        return unify_arrays(args, [copy_term(v, mapping) for v in self.values])
     def __str__(self):
         return f'Answer({[to_python(x) for x in self.values]})'
 
@@ -502,7 +516,7 @@ class YP(object):
             # indexedanswers
         except YPException as e:
             clauses = []
-        answer = Answer([get_value(v) for v in values])
+        answer = Answer(values)
         if append:
             clauses.append(answer)
         else:
